@@ -311,6 +311,26 @@ fn random_doc(rng: &mut Rng) -> Vec<u8> {
 
 fn emit_function_cases(out: &mut impl Write, rng: &mut Rng, n: usize) {
     for i in 0..n {
+        if i % 8 == 5 {
+            // UTF-16 decoder: 0-6 bytes biased to surrogates, both byte orders
+            let be = rng.chance(1, 2);
+            let units = rng.below(4);
+            let mut b: Vec<u8> = Vec::new();
+            for _ in 0..units {
+                let u: u16 = match rng.below(6) {
+                    0 => 0xD800 + rng.below(0x400) as u16,
+                    1 => 0xDC00 + rng.below(0x400) as u16,
+                    2 => [0xD7FF, 0xD800, 0xDBFF, 0xDC00, 0xDFFF, 0xE000, 0xFFFF, 0xFEFF, 0x0000, 0x000A][rng.below(10)],
+                    _ => rng.below(0x10000) as u16,
+                };
+                b.extend_from_slice(&if be { u.to_be_bytes() } else { u.to_le_bytes() });
+            }
+            if rng.chance(1, 4) {
+                b.push(rng.below(256) as u8); // odd trailing byte
+            }
+            writeln!(out, "E ge{i} {} {}", if be { "be" } else { "le" }, if b.is_empty() { "-".to_string() } else { hex(&b) }).unwrap();
+            continue;
+        }
         if i % 4 == 3 {
             let k = rng.range(1, 5);
             let b: Vec<u8> = (0..k)
